@@ -174,6 +174,22 @@ def g_array(rng):
     ty = ord(el[-1][0]) if el else 32
     return ["a:%d:%d" % (ty, len(el))] + el
 
+def g_nested(rng):
+    """an array of arrays, possibly ending in >= 5 equal arrays (printed as a repetition of arrays)"""
+    out = []
+    for _ in range(rng.randint(0, 3)):
+        out += g_array_flat(rng)
+    if rng.random() < 0.6:
+        a = g_array_flat(rng)
+        out += a * rng.choice([5, 5, 6])
+    return ["a:97:%d" % len(out)] + out if out else ["a:32:0"]
+
+def g_array_flat(rng):
+    k = rng.choice("ihcsT")
+    n = rng.randint(1, 3)
+    el = [g_scalar(rng, rng.choice("TF") if k == "T" else k) for _ in range(n)]
+    return ["a:%d:%d" % (ord(el[-1][0]), len(el))] + el
+
 def g_run_at_end(rng):
     """a compressible run that ends exactly at the end of an array (followed by a value that
     would continue it) or exactly at the end of the list"""
@@ -213,8 +229,10 @@ def gen_struct(rng, tier, dist, n):
                 k = rng.choice(RUN_KINDS)
                 m = rng.choice([2, 3, 4, 5, 5, 6, 7, 9, 12])
                 vals += g_run(rng, k, m); bump("run:%s" % k); bump("runlen=%d" % m)
-            elif q < 0.6:
+            elif q < 0.52:
                 vals += g_array(rng); bump("array")
+            elif q < 0.6:
+                vals += g_nested(rng); bump("nested-array")
             elif q < 0.75:
                 vals.append(g_time(rng)); bump("timetag")
             else:
@@ -229,11 +247,11 @@ def gen_struct(rng, tier, dist, n):
             addr = "/" + "/".join("".join(rng.choice("abcxyz019_#*?") for _ in range(rng.randint(1, 6)))
                                   for _ in range(rng.randint(1, 3)))
             bump("message")
-            kind = "xm" if any(v.startswith("t:") for v in vals) else "pm"
+            kind = "xm" if any(v.startswith("t:") or v.startswith("a:97:") for v in vals) else "pm"
             out.append("%s %d %d %d 1 %s %s" % (kind, ll, prec, compress, ";".join(vals), addr.encode().hex()))
         else:
             # time tags (other than in the Spec oracle) are not in the Coq model
-            kind = "xp" if any(v.startswith("t:") for v in vals) else "pp"
+            kind = "xp" if any(v.startswith("t:") or v.startswith("a:97:") for v in vals) else "pp"
             bump("stream:" + kind)
             out.append("%s %d %d %d 1 %s" % (kind, ll, prec, compress, ";".join(vals)))
     return out
@@ -288,9 +306,11 @@ def _item(toks, pos):
     """one element starting at toks[pos]: (expanded values, slots used)"""
     t = toks[pos]
     if t.startswith("a:"):
-        n = int(t.split(":")[2])
+        ty, n = int(t.split(":")[1]), int(t.split(":")[2])
         vals, used = _items(toks, pos + 1, n)
-        return [("a", tuple(vals))], 1 + n
+        # the array's element type is part of the value (T and F are one type; an empty array has none)
+        ty = 84 if ty == 70 else ty
+        return [("a", ty if vals else 0, tuple(vals))], 1 + n
     if t.startswith("R:"):
         _, num, hd = t.split(":")
         num, hd = int(num), int(hd)
